@@ -51,7 +51,23 @@ pub fn extract_file(file: &File, overlay: &Value) -> Value {
     for item in &file.items {
         if let Item::Mod(m) = item {
             if let Some((_, items)) = &m.content {
-                if let Some(v) = extract_mod(&m.ident.to_string(), items, overlay) {
+                // nested inline modules (hostile-context corpus entries) are flattened
+                let mut flat_items: Vec<Item> = Vec::new();
+                fn flatten(items: &[Item], out: &mut Vec<Item>) {
+                    for i in items {
+                        if let Item::Mod(n) = i {
+                            if let Some((_, inner)) = &n.content {
+                                if n.ident != "hostile_defs" {
+                                    flatten(inner, out);
+                                }
+                                continue;
+                            }
+                        }
+                        out.push(i.clone());
+                    }
+                }
+                flatten(items, &mut flat_items);
+                if let Some(v) = extract_mod(&m.ident.to_string(), &flat_items, overlay) {
                     mods.push(v);
                 }
             }
@@ -358,6 +374,9 @@ impl<'ast> Visit<'ast> for Uses {
             if u.leading_colon.is_some() { "::" } else { "" },
             flat(&u.tree)
         ));
+    }
+    fn visit_attribute(&mut self, _a: &'ast Attribute) {
+        // attribute paths (inline, doc, …) are not names of the user's scope
     }
     fn visit_pat_ident(&mut self, p: &'ast PatIdent) {
         self.bindings.insert(p.ident.to_string());
